@@ -65,6 +65,12 @@ Section Enc.
         match nth_error (w_classes w) (sp_cls sp), nth_error (w_confs w) (sp_ptr sp) with
         | Some pc, Some wc => if pc_global pc then observe_e (wc_conf wc) watch else SL []
         | _, _ => SL []
+        end;
+        (* Palette.get_color(accessor name) reads the same store as the attributes
+           (GlobalPalette.get_color(id) is the [id] access above) *)
+        match nth_error (w_classes w) (sp_cls sp) with
+        | Some pc => if pc_global pc then SL [] else sx_fmts (sp_attrs sp)
+        | None => SL []
         end].
 
   (* the index of the global configuration, the colours of every configuration, every
